@@ -124,6 +124,30 @@ pub struct EdgeShapes {
 	pub k: BTreeMap<String, EmptyTupleStruct>,
 }
 
+/// A linked chain (nesting as deep as the chain is long) and a tree of lists.
+#[derive(Clone, Debug, PartialEq, Serialize, Deserialize)]
+pub struct Chain {
+	pub id: u32,
+	pub next: Option<Box<Chain>>,
+}
+
+#[derive(Clone, Debug, PartialEq, Serialize, Deserialize)]
+pub enum Tree {
+	Leaf(i8),
+	List(Vec<Tree>),
+}
+
+/// Variant names that differ in capitalization only.
+#[derive(Clone, Copy, Debug, PartialEq, Eq, PartialOrd, Ord, Serialize, Deserialize)]
+pub enum CaseEnum {
+	Kb,
+	KB,
+	Mb(u8),
+	MB(u8),
+	#[serde(rename = "kb")]
+	Lower,
+}
+
 #[derive(Clone, Debug, PartialEq, Serialize, Deserialize)]
 pub enum E {
 	Unit,
@@ -315,6 +339,10 @@ pub enum Datum {
 	Arr0([u8; 0]),
 	EmptyTuple(EmptyTupleStruct),
 	Edge(EdgeShapes),
+	Chain(Chain),
+	Tree(Tree),
+	Case(Vec<CaseEnum>),
+	CaseKeys(BTreeMap<CaseEnum, u8>),
 }
 
 macro_rules! gen_int {
@@ -440,7 +468,7 @@ fn gen_named(rng: &mut Rng, depth: usize) -> Named {
 }
 
 pub fn gen_datum(rng: &mut Rng, depth: usize) -> Datum {
-	let n = if depth >= 3 { 20 } else { 61 };
+	let n = if depth >= 3 { 20 } else { 66 };
 	let short = |rng: &mut Rng| -> usize { [0usize, 1, 1, 1, 2, 3][rng.below(6)] };
 	let sub = |rng: &mut Rng| gen_datum(rng, depth + 1);
 	let len = |rng: &mut Rng| [0, 1, 2, 3, 6][rng.below(5)];
@@ -547,6 +575,25 @@ pub fn gen_datum(rng: &mut Rng, depth: usize) -> Datum {
 		}),
 		58 => Datum::Arr0([]),
 		59 => Datum::EmptyTuple(EmptyTupleStruct()),
+		61 => {
+			// mostly short, sometimes longer than any recursion limit one might think of (128, 256)
+			let len = if rng.chance(1, 6) { rng.range(120, 300) } else { rng.range(1, 12) };
+			let mut c = Chain { id: 0, next: None };
+			for i in 1..len {
+				c = Chain { id: i as u32, next: Some(Box::new(c)) };
+			}
+			Datum::Chain(c)
+		}
+		62 => {
+			let depth = if rng.chance(1, 6) { rng.range(60, 150) } else { rng.range(1, 8) };
+			let mut t = Tree::Leaf(gen_int!(rng, i8));
+			for d in 0..depth {
+				t = if d % 5 == 4 { Tree::List(vec![Tree::Leaf(1), t, Tree::List(vec![])]) } else { Tree::List(vec![t]) };
+			}
+			Datum::Tree(t)
+		}
+		63 => Datum::Case((0..short(rng) + 1).map(|_| [CaseEnum::Kb, CaseEnum::KB, CaseEnum::Mb(1), CaseEnum::MB(2), CaseEnum::Lower][rng.below(5)]).collect()),
+		64 => Datum::CaseKeys([CaseEnum::Kb, CaseEnum::KB, CaseEnum::Lower].iter().enumerate().filter(|_| rng.chance(2, 3)).map(|(i, k)| (*k, i as u8)).collect()),
 		_ => Datum::Edge(EdgeShapes {
 			a0: [],
 			m: EmptyTupleStruct(),
@@ -786,7 +833,7 @@ pub fn run_c16(cfg: &Config) -> i32 {
 		cfg,
 		EvidenceMeta {
 			id: "C16",
-			rule: "a case is an instance of the derive-annotated type family (61 top-level shapes: all integer widths at their bounds, f32/f64 incl. non-finite and subnormal, char, strings that look like numbers, unit, unit/newtype/tuple/named structs, an enum with unit/renamed/newtype/tuple/struct/empty-struct variants, options, tuples, arrays, sequences, newtype structs over sequences / one-element tuples and arrays / options / maps / enums / strings / unit, internally / adjacently tagged and untagged enums and flattened structs with unit-like fields, zero-length arrays, tuple structs and tuple variants without fields, collect_str and bytes types, maps keyed by String, i8..i64, u8..u64, char, unit-variant enum, integer newtype; recursive nesting) generated from the seed; checked: (1) from_value(to_value(x)) == x whenever serde_json's own Value round trip returns x, (2) to_value(x) has the same JSON shape as serde_json::to_value(x), (3) from_value(from_serde_json(serde_json::to_value(x))) == x, (4) from_value(parse(serde_json::to_string(x))) == x, under the same proviso; plus raw f64/f32 bit patterns through to_value/from_value; distinct by hash of the Debug rendering",
+			rule: "a case is an instance of the derive-annotated type family (65 top-level shapes: all integer widths at their bounds, f32/f64 incl. non-finite and subnormal, char, strings that look like numbers, unit, unit/newtype/tuple/named structs, an enum with unit/renamed/newtype/tuple/struct/empty-struct variants, options, tuples, arrays, sequences, newtype structs over sequences / one-element tuples and arrays / options / maps / enums / strings / unit, internally / adjacently tagged and untagged enums and flattened structs with unit-like fields, zero-length arrays, tuple structs and tuple variants without fields, linked chains up to 300 long and trees of lists up to 150 deep, enums whose variant names differ in capitalization only (as values and as map keys), collect_str and bytes types, maps keyed by String, i8..i64, u8..u64, char, unit-variant enum, integer newtype; recursive nesting) generated from the seed; checked: (1) from_value(to_value(x)) == x whenever serde_json's own Value round trip returns x, (2) to_value(x) has the same JSON shape as serde_json::to_value(x), (3) from_value(from_serde_json(serde_json::to_value(x))) == x, (4) from_value(parse(serde_json::to_string(x))) == x, under the same proviso; plus raw f64/f32 bit patterns through to_value/from_value; distinct by hash of the Debug rendering",
 			exhaustive: false,
 			assumptions: vec![
 				"serde_json 1.0.x with default features is the stated reference; data serde_json itself cannot round-trip (non-finite floats, Some(None), ...) are excluded from the round-trip relations".into(),
@@ -1094,6 +1141,41 @@ fn c17_one(rep: &mut Report, r: &RVal) {
 				}
 				Err((false, m)) => rep.violation("C17:deserialize-differs", format!("from_value::<Value>({}): {}", show(doc_of(r).as_bytes()), m), case()),
 			},
+		}
+		// --- Deserialize in place: whatever the place held before, it ends up holding the document ---
+		if !k5 {
+			use serde::Deserialize;
+			let text = doc_of(r);
+			let places: [Value; 3] = [
+				Value::Array(vec![Value::Null, Value::Boolean(true), Value::Array(vec![Value::Null; 5]), Value::String("old".into()), Value::Null, Value::Null]),
+				v.clone(),
+				Value::Object([("old".into(), Value::Array(vec![Value::Null; 3]))].into_iter().collect()),
+			];
+			for (pi, place) in places.into_iter().enumerate() {
+				// from text (a source without size hints) and from another Value (exact hints)
+				let mut p1 = place.clone();
+				let mut p2 = place;
+				let r1 = guard(std::panic::AssertUnwindSafe(|| {
+					let mut de = serde_json::Deserializer::from_str(&text);
+					Value::deserialize_in_place(&mut de, &mut p1).map_err(|e| e.to_string())
+				}));
+				let r2 = guard(std::panic::AssertUnwindSafe(|| Value::deserialize_in_place(v.clone(), &mut p2).map_err(|e| e.to_string())));
+				let fresh1 = serde_json::from_str::<Value>(&text).map_err(|e| e.to_string());
+				let fresh2 = json_syntax::from_value::<Value>(v.clone()).map_err(|e| e.to_string());
+				rep.count("in_place_deserializations", 2);
+				for (how, got, place_after, fresh) in [("serde_json text", r1, &p1, fresh1), ("another Value", r2, &p2, fresh2)] {
+					match (got, fresh) {
+						(Err(p), _) => rep.violation("C17:panic:deserialize_in_place", format!("deserialize_in_place from {} panicked on {}: {}", how, show(text.as_bytes()), p), case()),
+						(Ok(Ok(())), Ok(f)) => {
+							if *place_after != f {
+								rep.violation("C17:deserialize-in-place-differs", format!("deserialize_in_place from {} into place #{} leaves {}, a fresh deserialization gives {}", how, pi, show(place_after.to_string().as_bytes()), show(f.to_string().as_bytes())), case());
+							}
+						}
+						(Ok(Err(_)), Err(_)) => (),
+						(Ok(a), b) => rep.violation("C17:deserialize-in-place-differs", format!("deserialize_in_place from {}: {:?}, a fresh deserialization: {:?}", how, a, b.map(|_| "Ok")), case()),
+					}
+				}
+			}
 		}
 		// --- Deserialize from text through serde_json's deserializer ---
 		let text = doc_of(r);
